@@ -124,6 +124,10 @@ enum Workload {
     /// (it occupies most of the connection's flow-control window); then typed requests on
     /// the same channel; finally the download is read. (download size, typed reply sizes)
     UnreadStream(u8),
+    /// `Sequential` and `ConcurrentWarm` once more through `send_owned` (the by-value entry
+    /// point of the client, with its own code path to the same transport)
+    SequentialOwned,
+    ConcurrentWarmOwned,
 }
 
 const UNREAD_STREAM_VARIANTS: [(usize, &[usize]); 9] = [
@@ -184,12 +188,21 @@ async fn call(client: &RpcClient<Svc>, id: u32, pad: usize) -> CallResult {
 }
 
 async fn call_with_reply(client: &RpcClient<Svc>, id: u32, pad: usize, reply_pad: usize) -> CallResult {
+    call_full(client, id, pad, reply_pad, false).await
+}
+
+async fn call_full(client: &RpcClient<Svc>, id: u32, pad: usize, reply_pad: usize, owned: bool) -> CallResult {
     let padding: Vec<u8> = (0..pad).map(|i| (i % 251) as u8).collect();
     let want_sum: u64 = padding.iter().map(|b| *b as u64).sum();
     let start = tokio::time::Instant::now();
     // a harness-side cap so that a request without client timeout that never completes
     // (its segments were dropped by a partition) does not block the simulation
-    let res = tokio::time::timeout(Duration::from_secs(20), client.send(&Ask { id, padding, reply_pad: reply_pad as u32 })).await;
+    let ask = Ask { id, padding, reply_pad: reply_pad as u32 };
+    let res = if owned {
+        tokio::time::timeout(Duration::from_secs(20), client.send_owned(ask)).await
+    } else {
+        tokio::time::timeout(Duration::from_secs(20), client.send(&ask)).await
+    };
     let elapsed_ms = start.elapsed().as_millis() as u64;
     let (outcome, padding_ok) = match res {
         Err(_) => ("no-answer".to_string(), true),
@@ -259,11 +272,12 @@ fn run_sim(sc: &Scenario) -> Outcome {
             // concurrent requests go through clones of the configured client, the way the API
             // is meant to be used ("RpcClients are cheap to create")
             match workload {
-                Workload::Sequential => {
+                Workload::Sequential | Workload::SequentialOwned => {
+                    let owned = workload == Workload::SequentialOwned;
                     for id in 1..=3u32 {
                         // the original handle, then clones of it
                         let c = if id == 1 { None } else { Some(client.clone()) };
-                        let r = call(c.as_ref().unwrap_or(&client), id, 16).await;
+                        let r = call_full(c.as_ref().unwrap_or(&client), id, 16, 0, owned).await;
                         results.lock().unwrap().push(r);
                         tokio::time::sleep(Duration::from_millis(300)).await;
                     }
@@ -279,14 +293,15 @@ fn run_sim(sc: &Scenario) -> Outcome {
                         results.lock().unwrap().push(r);
                     }
                 },
-                Workload::ConcurrentWarm => {
-                    let r = call(&client, 1, 16).await;
+                Workload::ConcurrentWarm | Workload::ConcurrentWarmOwned => {
+                    let owned = workload == Workload::ConcurrentWarmOwned;
+                    let r = call_full(&client, 1, 16, 0, owned).await;
                     results.lock().unwrap().push(r);
                     tokio::time::sleep(Duration::from_millis(400)).await;
                     let mut tasks = Vec::new();
                     for id in 2..=4u32 {
                         let c = client.clone();
-                        tasks.push(tokio::spawn(async move { call(&c, id, 16).await }));
+                        tasks.push(tokio::spawn(async move { call_full(&c, id, 16, 0, owned).await }));
                     }
                     for t in tasks {
                         let r = t.await.map_err(|e| format!("request task died: {e}"))?;
@@ -413,7 +428,7 @@ fn all_scenarios(tier: Tier) -> (Vec<Scenario>, usize, usize) {
     let max_faults = tier.pick(1, 2);
     let scripts = scripts(max_faults);
     let mut scenarios = Vec::new();
-    let mut workloads = vec![Workload::Sequential, Workload::ConcurrentFresh, Workload::ConcurrentWarm, Workload::Large];
+    let mut workloads = vec![Workload::Sequential, Workload::ConcurrentFresh, Workload::ConcurrentWarm, Workload::Large, Workload::SequentialOwned, Workload::ConcurrentWarmOwned];
     for v in 0..LARGE_REPLY_VARIANTS.len() {
         workloads.push(Workload::LargeReplies(v as u8));
     }
@@ -521,9 +536,9 @@ fn judge(sc: &Scenario, out: &Outcome, st: &mut Stats) {
         return;
     }
     let expected_calls = match sc.workload {
-        Workload::Sequential => 3,
+        Workload::Sequential | Workload::SequentialOwned => 3,
         Workload::ConcurrentFresh => 2,
-        Workload::ConcurrentWarm => 4,
+        Workload::ConcurrentWarm | Workload::ConcurrentWarmOwned => 4,
         Workload::Large => 1,
         Workload::LargeReplies(v) => 1 + LARGE_REPLY_VARIANTS[v as usize].len(),
         Workload::UnreadStream(v) => 2 + UNREAD_STREAM_VARIANTS[v as usize].1.len(),
@@ -706,6 +721,8 @@ fn replay(case: &J) -> i32 {
     let sc = Scenario {
         workload: match case.get("workload").and_then(|v| v.as_str()) {
             Some("ConcurrentFresh") => Workload::ConcurrentFresh,
+            Some("SequentialOwned") => Workload::SequentialOwned,
+            Some("ConcurrentWarmOwned") => Workload::ConcurrentWarmOwned,
             Some("ConcurrentWarm") => Workload::ConcurrentWarm,
             Some("Large") => Workload::Large,
             Some(w) if w.starts_with("UnreadStream(") => Workload::UnreadStream(w["UnreadStream(".len()..w.len() - 1].parse().unwrap_or(0)),
